@@ -260,12 +260,41 @@ fn parse_back(text: &str, model: &Model, at: &str) -> Result<(), Violation> {
     }
 }
 
+/// The 31 titlecase letters of Unicode (general category Lt).
+const TITLECASE: &[char] = &[
+    '\u{01C5}', '\u{01C8}', '\u{01CB}', '\u{01F2}', '\u{1F88}', '\u{1F89}', '\u{1F8A}', '\u{1F8B}', '\u{1F8C}', '\u{1F8D}',
+    '\u{1F8E}', '\u{1F8F}', '\u{1F98}', '\u{1F99}', '\u{1F9A}', '\u{1F9B}', '\u{1F9C}', '\u{1F9D}', '\u{1F9E}', '\u{1F9F}',
+    '\u{1FA8}', '\u{1FA9}', '\u{1FAA}', '\u{1FAB}', '\u{1FAC}', '\u{1FAD}', '\u{1FAE}', '\u{1FAF}', '\u{1FBC}', '\u{1FCC}',
+    '\u{1FFC}',
+];
+
+/// The titlecase letter that lower-cases to exactly `c`, if there is one.
+fn titlecase_partner(c: char) -> Option<char> {
+    if c.is_ascii() {
+        return None;
+    }
+    TITLECASE.iter().copied().find(|t| {
+        let mut low = t.to_lowercase();
+        low.next() == Some(c) && low.next().is_none()
+    })
+}
+
 /// A spelling of `alg` in another letter case that lower-cases back to `alg` (or `alg` itself).
 fn case_variant(alg: &str, rng: &mut Rng) -> String {
     let candidate: String = alg
         .chars()
         .map(|c| {
             if rng.chance(1, 2) {
+                // "Letter case" has three values for some letters: the digraphs and the Greek
+                // letters with iota subscript also have a titlecase form (general category Lt),
+                // which lower-cases to the same letter as the upper-case form does (r12c12-3: one
+                // of two look-alike lower-casing helpers skipped exactly these). The extra draw is
+                // made only for such letters, so every other scenario keeps its random stream.
+                if let Some(t) = titlecase_partner(c) {
+                    if rng.chance(1, 2) {
+                        return t;
+                    }
+                }
                 let mut up = c.to_uppercase();
                 match (up.next(), up.next()) {
                     (Some(u), None) => u,
